@@ -134,6 +134,8 @@ func (b *Box) getOrCreateMessagesByTopic(topic []byte) *storedMessages {
 		return messages
 	}
 
+	verifYield("lookup:between")
+
 	b.lock.Lock()
 	defer b.lock.Unlock()
 
@@ -158,6 +160,8 @@ func (b *Box) storeOrForward(msg *IncMessage) {
 		return
 	}
 
+	verifYield("recv:after-check")
+
 	var tooManyTopicsFromSender bool
 
 	b.lock.RLock()
@@ -171,9 +175,16 @@ func (b *Box) storeOrForward(msg *IncMessage) {
 		return
 	}
 
+	verifYield("recv:after-count")
+
 	b.markTopicForSender(msg)
 
+	verifYield("recv:after-mark")
+
 	messages := b.getOrCreateMessagesByTopic(msg.Topic)
+
+	verifYield("recv:after-lookup")
+
 	messages.add(msg, atomic.LoadUint64(&b.currentGCEpochNum))
 }
 
@@ -288,6 +299,7 @@ func (b *Box) Send(msgType uint8, topic []byte, msg []byte, to ...UniversalID) {
 
 	defer func() {
 		for _, msg := range messages {
+			verifYield("send:drain")
 			b.HandleMessage(msg)
 		}
 	}()
@@ -295,6 +307,8 @@ func (b *Box) Send(msgType uint8, topic []byte, msg []byte, to ...UniversalID) {
 	delete(b.pendingMessages, string(topic))
 
 	b.lock.Unlock()
+
+	verifYield("send:after-start")
 
 	b.ForwardSend(msgType, topic, msg, to...)
 }
